@@ -47,7 +47,7 @@ theorem reset_holder_forgets (w : World) (hard : Bool) (hi : w.h.arch.isSome = t
 
 /-- `CodeHolder::reinit` leaves a holder that only remembers its environment and who is attached. -/
 theorem reinit_holder_forgets (w : World) (hi : w.h.arch.isSome = true) :
-    w.reinit.1.h.obs = ({ arch := w.h.arch, secs := [textSection], attached := w.h.attached } : Holder).obs := by
+    w.reinit.1.h.obs = ({ arch := w.h.arch, secs := [textSection], attached := w.h.attached, base := w.h.initBase, initBase := w.h.initBase } : Holder).obs := by
   have : w.h.arch.isNone = false := by cases h : w.h.arch <;> simp_all
   simp [World.reinit, this, Holder.resetContainers, Holder.obs, Holder.alloc]
 
@@ -165,7 +165,8 @@ theorem reinit_sim (a b : World) (h : Sim a b) : Sim a.reinit.1 b.reinit.1 ∧ a
   split
   · exact ⟨h, rfl⟩
   · refine ⟨sim_of_parts ?_ ?_, rfl⟩
-    · simp [Holder.resetContainers, Holder.obs, Holder.alloc, harch, hatt]
+    · have hib : a.h.initBase = b.h.initBase := by have := congrArg Holder.initBase hh; exact this
+      simp [Holder.resetContainers, Holder.obs, Holder.alloc, harch, hatt, hib]
     · simp only [reinitAll]
       rw [hatt]
       exact applyAll_congr _ onReinit_resp _ _ _ he
@@ -213,7 +214,8 @@ theorem logging_is_unobservable (w : World) (on : Bool) (i : Nat) :
 
 /-! ### 4. unwinding over histories of lifecycle / configuration operations -/
 
-theorem init_sim (a b : World) (ar : Arch) (h : Sim a b) : Sim (a.init ar).1 (b.init ar).1 ∧ (a.init ar).2 = (b.init ar).2 := by
+theorem init_sim (a b : World) (ar : Arch) (bs : Option Nat) (h : Sim a b) :
+    Sim (a.init ar bs).1 (b.init ar bs).1 ∧ (a.init ar bs).2 = (b.init ar bs).2 := by
   obtain ⟨hh, he⟩ := sim_parts h
   have harch : a.h.arch = b.h.arch := by have := congrArg Holder.arch hh; exact this
   unfold World.init
@@ -292,7 +294,19 @@ theorem lifecycle_step_sim (a b : World) (op : Op) (hop : op.lifecycle = true) (
     Sim (a.step op).1 (b.step op).1 ∧ (a.step op).2 = (b.step op).2 := by
   cases op <;> simp only [Op.lifecycle, Bool.false_eq_true] at hop
   case world f st => exact ⟨rfl, rfl⟩
-  case init ar => exact init_sim a b ar h
+  case init ar => exact init_sim a b ar none h
+  case initb ar bs => exact init_sim a b ar (some bs) h
+  case relocate bs =>
+    obtain ⟨hh, he⟩ := sim_parts h
+    have harch : a.h.arch = b.h.arch := by have := congrArg Holder.arch hh; exact this
+    simp only [World.step, harch]
+    split
+    · exact ⟨h, rfl⟩
+    · refine ⟨sim_of_parts ?_ he, rfl⟩
+      have := hh
+      simp only [Holder.obs] at this ⊢
+      simp only [Holder.mk.injEq] at this ⊢
+      simp_all
   case reset hard => exact ⟨reset_sim a b hard h, rfl⟩
   case reinit => exact reinit_sim a b h
   case attach i => exact attach_sim a b i h
@@ -362,13 +376,13 @@ theorem generate_after_reset_eq_fresh (w : World) (hard : Bool) (fam : Bool) (p 
     everything generated before (sections, labels, relocations, fixups, node lists, one-shot options, virtual registers,
     annotations, loggers, retained capacity) run every program identically after `reinit`. -/
 theorem generate_after_reinit_forgets_history (a b : World) (p : List Op) (ha : a.h.arch.isSome = true)
-    (harch : a.h.arch = b.h.arch) (hatt : a.h.attached = b.h.attached)
+    (harch : a.h.arch = b.h.arch) (hatt : a.h.attached = b.h.attached) (hib : a.h.initBase = b.h.initBase)
     (hes : (reinitAll a.es a.h.attached).map Emitter.obs = (reinitAll b.es b.h.attached).map Emitter.obs) :
     a.reinit.1.trace p = b.reinit.1.trace p ∧ Sim (a.reinit.1.run p) (b.reinit.1.run p) := by
   apply no_residue
   have hb : b.h.arch.isSome = true := harch ▸ ha
   apply sim_of_parts
-  · rw [reinit_holder_forgets a ha, reinit_holder_forgets b hb, harch, hatt]
+  · rw [reinit_holder_forgets a ha, reinit_holder_forgets b hb, harch, hatt, hib]
   · have hna : a.h.arch.isNone = false := by cases h : a.h.arch <;> simp_all
     have hnb : b.h.arch.isNone = false := by cases h : b.h.arch <;> simp_all
     simp only [World.reinit, hna, hnb]
@@ -448,15 +462,16 @@ theorem wfHist_of_no_setters (h : List Op) (hn : ∀ op ∈ h, match op with | .
 /-! ### 5b. reinit = a fresh holder with the same emitters attached -/
 
 /-- a freshly constructed, initialised holder (environment `arch`) that holds only the empty `.text` -/
-def freshHolder (arch : Option Arch) : Holder := { arch := arch, secs := [textSection] }
+def freshHolder (arch : Option Arch) (base : Option Nat := none) : Holder :=
+  { arch := arch, secs := [textSection], base := base, initBase := base }
 
 /-- **the world "fresh objects, same configuration"**: a fresh holder initialised with `w`'s environment, and for every
     emitter of `w` a freshly constructed emitter of the same kind and family - attached to that holder (`on_attach`) if it
     is on `w`'s attachment list, untouched otherwise; the attachment list in `w`'s order. -/
 def freshAttached (w : World) : World :=
-  { h := { freshHolder w.h.arch with attached := w.h.attached },
+  { h := { freshHolder w.h.arch w.h.initBase with attached := w.h.attached },
     es := w.es.mapIdx fun j e =>
-      if j ∈ w.h.attached then ({ kind := e.kind, fam64 := e.fam64 } : Emitter).onAttach (freshHolder w.h.arch)
+      if j ∈ w.h.attached then ({ kind := e.kind, fam64 := e.fam64 } : Emitter).onAttach (freshHolder w.h.arch w.h.initBase)
       else { kind := e.kind, fam64 := e.fam64 } }
 
 /-- **reinit = fresh holder with the same emitters attached**, for every world that satisfies the two invariants -/
@@ -478,7 +493,7 @@ theorem reinit_sim_freshAttached (w : World) (hw : Inv w) (hA : InvA w) (hi : w.
       congr 1
       have t3' : e.instAlign = alignOf w.h.arch := t3
       have t4' : e.invalidRex = (e.kind == Kind.asm && w.h.arch == some Arch.x86) := t4
-      exact reinit_eq_fresh_attach e (freshHolder w.h.arch) t1 t2 (by simpa [alignOf, freshHolder] using t3')
+      exact reinit_eq_fresh_attach e (freshHolder w.h.arch w.h.initBase) t1 t2 (by simpa [alignOf, freshHolder] using t3')
         (by simpa [freshHolder] using t4') rfl
     · rw [applyAll_getElem?_not_mem _ _ _ _ hj]
       cases h1 : w.es[j]? with
@@ -507,7 +522,7 @@ theorem joinMap_map {α β : Type} (l : List α) (g : α → β) (f : β → Str
 
 theorem dumpHolder_obs (h : Holder) : dumpHolder h.obs = dumpHolder h := by
   unfold dumpHolder
-  show dumpH h.arch h.secs h.labels h.relocs h.unres h.attached = _
+  show dumpH h.arch h.base h.secs h.labels h.relocs h.unres h.attached = _
   rfl
 
 theorem dumpEmitters_obs (es : List Emitter) : dumpEmitters (es.map Emitter.obs) = dumpEmitters es := by
@@ -533,9 +548,9 @@ theorem dump_after_any_history (h p : List Op) (hard : Bool) (hwf : WFHist World
 
 /-- `freshAttached` with only the emitters in `done` attached so far -/
 def partialFA (w : World) (done : List Nat) : World :=
-  { h := { freshHolder w.h.arch with attached := done },
+  { h := { freshHolder w.h.arch w.h.initBase with attached := done },
     es := w.es.mapIdx fun j e =>
-      if j ∈ done then ({ kind := e.kind, fam64 := e.fam64 } : Emitter).onAttach (freshHolder w.h.arch)
+      if j ∈ done then ({ kind := e.kind, fam64 := e.fam64 } : Emitter).onAttach (freshHolder w.h.arch w.h.initBase)
       else { kind := e.kind, fam64 := e.fam64 } }
 
 theorem onAttach_holder_irrel (h h' : Holder) (e : Emitter) (ha : h.arch = h'.arch) (hl : h.logger = h'.logger) (hs : h.secs = h'.secs) :
@@ -587,10 +602,18 @@ theorem partialFA_run (w : World) (rest : List Nat) : ∀ (done : List Nat),
     have := ih (done ++ [i]) (fun j hj => hall j (by simp [hj])) (by simpa [List.append_assoc] using hnd)
     simpa [List.append_assoc] using this
 
+/-- `init(environment)` or `init(environment, base)` -/
+def initOp (a : Arch) : Option Nat → Op
+  | none => .init a
+  | some b => .initb a b
+
+theorem step_initOp (w : World) (a : Arch) (b : Option Nat) : w.step (initOp a b) = w.init a b := by
+  cases b <;> rfl
+
 /-- **operationally**: `freshAttached w` is (observationally) what freshly constructed objects reach by `init` with `w`'s
     architecture followed by `attach` of `w`'s attached emitters in list order -/
 theorem freshAttached_is_init_then_attach (w : World) (hw : Inv w) (hA : InvA w) (a : Arch) (ha : w.h.arch = some a) :
-    ∃ fam, Sim ((freshOf fam).run (Op.init a :: w.h.attached.map Op.attach)) (freshAttached w) := by
+    ∃ fam, Sim ((freshOf fam).run (initOp a w.h.initBase :: w.h.attached.map Op.attach)) (freshAttached w) := by
   obtain ⟨fam, hf⟩ := hw.fm
   refine ⟨fam, ?_⟩
   have hfa : freshAttached w = partialFA w ([] ++ w.h.attached) := by simp [freshAttached, partialFA]
@@ -613,9 +636,9 @@ theorem freshAttached_is_init_then_attach (w : World) (hw : Inv w) (hA : InvA w)
     rw [h1, h2, hf, h3]
   apply sim_of_parts
   · have hfh : (freshOf fam).h = ({} : Holder) := by cases fam <;> rfl
-    simp [World.step, World.init, hfh, partialFA, freshHolder, ha, Holder.obs, Holder.alloc]
+    simp [step_initOp, World.init, hfh, partialFA, freshHolder, ha, Holder.obs, Holder.alloc]
   · have hfh : (freshOf fam).h = ({} : Holder) := by cases fam <;> rfl
-    simp [World.step, World.init, hfh, hes]
+    simp [step_initOp, World.init, hfh, hes]
 
 /-- **… after ANY history**: for every (well-formed) history `h` that leaves the holder initialised and every program `p`,
     running `p` after `h` and `reinit()` answers exactly as on a fresh holder with fresh emitters attached in the same
@@ -635,14 +658,14 @@ theorem reinit_after_any_history (h p : List Op) (hwf : WFHist World.fresh h)
 theorem reinit_after_any_history_eq_fresh_run (h p : List Op) (a : Arch) (hwf : WFHist World.fresh h)
     (ha : (World.fresh.run h).h.arch = some a) :
     ∃ fam, ((World.fresh.run h).reinit.1).trace p =
-        ((freshOf fam).run (Op.init a :: (World.fresh.run h).h.attached.map Op.attach)).trace p ∧
+        ((freshOf fam).run (initOp a (World.fresh.run h).h.initBase :: (World.fresh.run h).h.attached.map Op.attach)).trace p ∧
       dumpCode (((World.fresh.run h).reinit.1).run p) =
-        dumpCode (((freshOf fam).run (Op.init a :: (World.fresh.run h).h.attached.map Op.attach)).run p) := by
+        dumpCode (((freshOf fam).run (initOp a (World.fresh.run h).h.initBase :: (World.fresh.run h).h.attached.map Op.attach)).run p) := by
   have hinv : Inv (World.fresh.run h) := inv_run h _ (inv_fresh false) hwf
   have hA : InvA (World.fresh.run h) := invA_run h _ (inv_fresh false) (invA_fresh false) hwf
   have h1 := reinit_sim_freshAttached _ hinv hA (by simp [ha])
   obtain ⟨fam, h2⟩ := freshAttached_is_init_then_attach _ hinv hA a ha
-  have hs : Sim (World.fresh.run h).reinit.1 ((freshOf fam).run (Op.init a :: (World.fresh.run h).h.attached.map Op.attach)) :=
+  have hs : Sim (World.fresh.run h).reinit.1 ((freshOf fam).run (initOp a (World.fresh.run h).h.initBase :: (World.fresh.run h).h.attached.map Op.attach)) :=
     h1.trans h2.symm
   have := no_residue p _ _ hs
   exact ⟨fam, this.1, dumpCode_of_sim this.2⟩
@@ -667,6 +690,24 @@ theorem holder_fields_of_sim {a b : World} (h : Sim a b) :
   have h5 := congrArg Holder.unres hh
   have h6 := congrArg Holder.attached hh
   exact ⟨h1, h2, h3, h4, h5, h6⟩
+
+/-! ### 6b. a relocated base address does not survive reinit (fixes/C16-3.patch) -/
+
+/-- after `reinit()` the holder's base address is the one given to `init()`, whatever `relocate_to_base` /
+    `JitRuntime::add` stored in between -/
+theorem reinit_restores_init_base (w : World) (hi : w.h.arch.isSome = true) : w.reinit.1.h.base = w.h.initBase := by
+  have := congrArg Holder.base (reinit_holder_forgets w hi)
+  exact this
+
+/-- relocating before a reinit changes nothing that comes after the reinit: same world (observationally), hence same
+    answers and dumps for every later program (`no_residue`) -/
+theorem relocate_then_reinit_forgets_base (w : World) (b : Nat) : Sim ((w.step (.relocate b)).1.reinit.1) w.reinit.1 := by
+  simp only [World.step]
+  split
+  · rfl
+  · rename_i hn
+    have hn' : w.h.arch.isNone = false := by cases h : w.h.arch <;> simp_all
+    simp [Sim, World.reinit, hn', Holder.resetContainers]
 
 /-! ### 7. arena memory: static vs dynamic, block sizes, retained blocks -/
 
@@ -738,6 +779,14 @@ example : WFHist World.fresh sampleHistory := by decide
 -- the condition excludes exactly this: an option set on a detached emitter survives attach (on_attach does not clear it)
 example : ¬ WFHist World.fresh [.opt 0 optShort, .init .x64, .reset false] := by decide
 example : ¬ Sim ((World.fresh.run [.opt 0 optShort, .init .x64]).reset false) World.fresh := by decide
+
+-- base address: relocate (= JitRuntime::add) then reinit is a holder without base address again; with an init-time base that
+-- base comes back; a history with relocate is covered by the reinit theorems
+example : Sim (World.fresh.run [.init .x64, .attach 0, .raw 0 [144], .relocate 65536, .reinit]) (World.fresh.run [.init .x64, .attach 0]) := by decide
+example : (World.fresh.run [.init .x64, .relocate 65536]).h.base = some 65536 ∧
+    (World.fresh.run [.init .x64, .relocate 65536, .reinit]).h.base = none ∧
+    (World.fresh.run [.initb .x64 4096, .relocate 65536, .reinit]).h.base = some 4096 := by decide
+example : WFHist World.fresh [.init .x64, .attach 0, .raw 0 [144], .relocate 65536, .reinit] := by decide
 
 -- AArch64 emitters: a history with b-fixups, a relocation, Builder nodes, then reset / reinit
 def sampleHistoryA64 : List Op :=
